@@ -1,4 +1,5 @@
 import Uniseg.Impl.Loops
+import Uniseg.Explore
 /-! Line-protocol driver: one operation per input line, one canonical output line each.
 Core-only (no Mathlib) so that it links as a `lean_exe`. -/
 open Uniseg Uniseg.Gen
@@ -152,6 +153,16 @@ def handle (toks : List String) : IO Unit := do
   | ["htlb", h] => IO.println s!"{b2n (hasTrailingLineBreak (parseHex h))}"
   | ["it", amb, h, ops] => IO.println (iterOps amb.toNat! (parseHex h) ops)
   | ["it", amb, h] => IO.println (iterOps amb.toNat! (parseHex h) "")
+  | ["explore", alg, runes] =>
+    for l in Explore.run alg ((runes.splitOn ",").filterMap String.toNat?) do IO.println l
+  | ["spec", alg, h] =>
+    let rs := runeVals (Utf8.runesOf (parseHex h))
+    let out :=
+      if alg == "g" then String.join ((Spec.specG rs).map Explore.b2s)
+      else if alg == "w" then String.join ((Spec.specW rs).map Explore.b2s)
+      else if alg == "s" then String.join ((Spec.specS rs).map Explore.b2s)
+      else String.join ((Spec.specL rs).map Explore.showLV)
+    IO.println (if out.isEmpty then "-" else out)
   | ["sync"] => do IO.println "sync"; (← IO.getStdout).flush
   | _ => IO.println "bad-op"
 
